@@ -115,6 +115,44 @@ theorem commit_lock_facts :
     Verif.Gen.StateCacheFacts.commitLocksWholeBody = true ∧ Verif.Gen.StateCacheFacts.getTakesNoLock = true := by
   decide
 
+/-- `commit_published`: with ANY number of committer threads (serialised by `sc.lock`: a committer at `start` cannot step
+    while another holds the lock) and any number of lookups, under every schedule without eviction: as soon as a commit has
+    returned, its block is linked and every write the tree records for that hash is present in the cache — no write of a
+    returned commit is lost, whatever other commits (of siblings writing the same fresh key, of the parent, of a duplicate
+    of the same block) were interleaved. Together with `C08_visible_after_commit` a later lookup at the block finds them. -/
+theorem commit_published {c : Conc K B V} {T : Tree K B V} (hI : Inv c.sc T none) (h0 : c.Initial)
+    (sched : List Nat) (hev : (c.run sched).sc.evictions = c.sc.evictions)
+    {tid : Nat} {m : Committer K B V} {b : Bool}
+    (hm : (c.run sched).threads[tid]? = some (Thread.committer m)) (hdone : m.pc = .done b) :
+    ∃ x, (Conc.treeRun T c sched).find m.hash = some x ∧ linkAt (c.run sched).sc m.hash = some x.prev ∧
+      ∀ k e, alookup x.writes k = some e → entryAt (c.run sched).sc k m.hash = some e := by
+  have hC0 := CInv.init hI h0
+  have hD0 : DoneLinked c := by
+    intro t m' b' hm' hd'
+    rcases h0.2 t _ hm' with ⟨k, bb, he⟩ | ⟨m'', he, hs, _⟩
+    · cases he
+    · cases he; rw [hs] at hd'; cases hd'
+  obtain ⟨hC, _, _⟩ := Conc.run_inv sched hC0 hev
+  have hD := Conc.run_doneLinked sched hC0 hD0 hev
+  cases hl : linkAt (c.run sched).sc m.hash with
+  | none => exact absurd hl (hD tid m b hm hdone)
+  | some p =>
+    obtain ⟨x, hx, hp, hw⟩ := hC.inv.linked m.hash p hl
+    exact ⟨x, hx, by rw [hp], hw⟩
+
+/-- two committers, B1 and B2 (siblings, children of the committed block 10), both writing the fresh key 0, and a reader;
+    one of the 2-committer schedules: B2 is scheduled first but B1 holds the lock, so B2's steps are no-ops until B1 has
+    returned; afterwards both entries are present -/
+def twoCommitters : Conc Nat Nat Nat :=
+  let s := ((Sys.new 200 2000 : Sys Nat Nat Nat Nat).run [.blk 0 10 0, .bcommit 0]).1
+  ⟨s.sc, none, [Thread.committer ⟨11, 10, [(0, .val 1)], .start⟩, Thread.committer ⟨12, 10, [(0, .val 2)], .start⟩,
+                Thread.reader (Reader.init 0 12)]⟩
+
+example : (entryAt (twoCommitters.run [0, 1, 1, 0, 0, 1, 0, 0, 0, 1, 1, 1, 1, 1, 1, 2, 2, 2]).sc 0 11,
+           entryAt (twoCommitters.run [0, 1, 1, 0, 0, 1, 0, 0, 0, 1, 1, 1, 1, 1, 1, 2, 2, 2]).sc 0 12,
+           (twoCommitters.run [0, 1, 1, 0, 0, 1, 0, 0, 0, 1, 1, 1, 1, 1, 1, 2, 2, 2]).results)
+    = (some (.val 1), some (.val 2), [none, none, some (some 2)]) := by decide
+
 /-- a method takes the named mutex as its first statement, in the given mode, keeps it to the end of its body, and every
     access it makes to a field of its receiver happens under it -/
 def holdsForWholeBody (m : Verif.Gen.LockFacts.Method) (mode : Verif.Gen.LockFacts.LockMode) (mutex : String) : Bool :=
